@@ -18,6 +18,33 @@ fn main() {
                 println!("{} {}", d.id, d.subs.iter().map(|s| s.name).collect::<Vec<_>>().join(","));
             }
         }
+        "dbg-hook" => {
+            // development aid: one hooked pool, a few instructions, logs printed
+            use wpv::history::*;
+            wpv::rt::install();
+            let mut spec: WorldSpec = serde_json::from_str(r#"{"tick_spacing":64,"start_tick":0,"start_price_offset":0,"fee_rate":3000,"protocol_fee_rate":300,"dynamic_mask":0,"n_lps":2,"n_traders":1,"growth_a0":"0","growth_b0":"0","rewards":[],"reward_growth0_hi":0}"#).unwrap();
+            spec.mint_kind = 3;
+            spec.hook1 = true;
+            spec.hook2 = args.len() > 2;
+            let mut h = Hist::build(&spec).expect("world");
+            for op in [
+                Op::Open { lp: 0, kind: wpv::world::PosKind::Plain, range: RangeSel::Rel { lo: -2, hi: 2 } },
+                Op::Increase { pos: 0, liquidity: 1_000_000, variant: IncVariant::V2 },
+                Op::Swap { trader: 0, a_to_b: true, exact_in: true, amount: 1000, limit: LimitSel::None, v2: true },
+                Op::Decrease { pos: 0, amount: DecSel::Frac(30000), v2: true },
+                Op::CollectFees { pos: 0, v2: true },
+                Op::CollectProtocolFees { v2: true },
+            ] {
+                let r = h.exec(&op);
+                println!("{op:?} -> {:?}", r.did);
+                if let Some(o) = &r.outcome {
+                    for l in o.logs.iter().rev().take(6).rev() {
+                        println!("    {l}");
+                    }
+                }
+            }
+            println!("hook executions: {}", wpv::rt::HOOK_CALLS.load(std::sync::atomic::Ordering::Relaxed));
+        }
         "check" => {
             if args.len() < 3 {
                 usage();
